@@ -269,10 +269,15 @@ def judge(c, g, m):
     return None
 
 
+def setup():
+    """model extraction and driver build (bin/check --setup calls this; main builds lazily through it)"""
+    return build_model(PROP, "ExtractC18.v", os.path.join(ROOT, "ocaml/c18"), ["theories/RegexProg.v"])[0]
+
+
 def main(tier, seed, replay=None):
     t0 = time.time()
-    proof = Proof(PROP)
-    exe, _ = build_model(PROP, "ExtractC18.v", os.path.join(ROOT, "ocaml/c18"), ["theories/RegexProg.v"])
+    proof = Proof(PROP, tier=tier)
+    exe = setup()
     rng = random.Random(seed)
     ncase = 5000 if tier == "quick" else 40000
     la, lf = (6, 6) if tier == "quick" else (6, 7)
